@@ -23,6 +23,9 @@ instance : Inhabited Node := ⟨.mk [] [] [] [] []⟩
 namespace Arg
 def key : Arg → String
   | .str k _ => k | .strs k _ => k | .test k _ => k | .tests k _ => k
+/-- the same value under another dict key -/
+def rekey (k : String) : Arg → Arg
+  | .str _ v => .str k v | .strs _ v => .strs k v | .test _ n => .test k n | .tests _ l => .tests k l
 end Arg
 
 namespace Node
